@@ -152,15 +152,12 @@ def wipe_sse():
 
 
 async def server_main():
-    """the real server entry point (frontend/server/connector.run_server), on a fresh manager --
-    what a freshly started interpreter would have"""
-    import websockets
+    """the repo's real server entry point, frontend/server/connector.run_server, on a fresh manager --
+    what a freshly started server process has"""
     import frontend.server.connector as conn
     import frontend.server.services.services_manager as sm
     conn._sse_service_manager = sm.ServicesManager()
-    import asyncio
-    async with websockets.serve(conn.handler, "simhost", 8001, max_size=None):
-        await asyncio.Future()
+    await conn.run_server("simhost", 8001)
 
 
 class Watchdog:
